@@ -5,4 +5,6 @@ cd "$(dirname "$0")/mc" || exit 1
 mkdir -p ../bin ../evidence ../replays
 go build -o ../bin/mc.setup ./cmd/mc || exit 1
 rm -f ../bin/mc.setup
+# warm the race-detector build cache for the auxiliary pass of C08
+go build -race -o ../bin/racer.setup ./cmd/racer && rm -f ../bin/racer.setup
 exit 0
